@@ -25,7 +25,7 @@ RULE = ("operation sequences over a 9-AVP alphabet on 5 container kinds, invaria
         "sequence contains a pop followed later by an append of the same name, or a pop among equal-valued AVPs, or an item "
         "assignment, or a rename followed by cleanup/pop, or a bulk update; distinct by SHA-1 of the case record")
 
-N_TEMPL = 9
+N_TEMPL = 10
 
 
 def make(t):
@@ -48,6 +48,9 @@ def make(t):
         return DiameterAVP(code=77777, vendor_id=4242, flags=0x80, data=b"q")
     if t == 8:
         return C("UserNameAVP")("u")
+    if t == 9:
+        # an AVP whose own name ends in "AVP" (Failed-AVP: attribute failed_avp_avp, short name failed_avp)
+        return C("FailedAvpAVP")([C("UserNameAVP")("bad")])
     raise ValueError(t)
 
 
@@ -123,6 +126,15 @@ def invariants(c, model, kind, step, op):
             if got and not c.has_avp(k):
                 vs.append(V("membership queries agree with the name view", f"has_avp/false-for-present/{tag}", f"step {step}: {k}"))
                 break
+        # the lower-case AVP-name form of a key (the attribute name without its "_avp" part) is accepted as well
+        import re as _re
+        for k in names:
+            m = _re.fullmatch(r"(.+)_avp(__\d+)?", k)
+            if got and m and not k.startswith("_") and kind != "grouped":      # DiameterMessage.has_avp documents both forms
+                short = m.group(1) + (m.group(2) or "")
+                if short not in names and not c.has_avp(short):
+                    vs.append(V("membership queries agree with the name view", f"has_avp/false-for-present-short-name/{tag}", f"step {step}: {short} (attribute {k})"))
+                    break
         if c.has_avp("never_added_avp"):
             vs.append(V("membership queries agree with the name view", f"has_avp/true-for-absent/{tag}", f"step {step}"))
     except (Exception,) + common.lib_errors() as e:
@@ -281,7 +293,7 @@ def run_case(case):
 
 # ---------------------------------------------------------------- generators
 templ = st.integers(0, N_TEMPL - 1)
-NEW_NAMES = ["alias", "my_custom_avp", "origin_host_avp", "origin_host_avp__1", "session_id_avp", "renamed_avp__2", "x",
+NEW_NAMES = ["_x", "_tmp_avp", "__y", "X", "alias", "my_custom_avp", "origin_host_avp", "origin_host_avp__1", "session_id_avp", "renamed_avp__2", "x",
              # names the message uses for its own state: the rename is refused, or at least leaves the message coherent
              "_loaded", "_avps", "_header", "header", "avps"]
 UPD = [("origin_host", "host-c.example.org"), ("origin_realm", "new-realm"), ("user_name", "someone"), ("session_id", "sid;7;7;x"),
